@@ -84,6 +84,57 @@ def run_translator():
     return rc == 0, out
 
 
+def translator_outputs():
+    """generator file name -> set of Gen module names it writes (scanned from its source)"""
+    d = os.path.join(VERIF, "translator")
+    res = {}
+    for f in os.listdir(d):
+        if f.startswith("gen_") and f.endswith(".py"):
+            res[f] = set(re.findall(r'"(\w+)\.v"', open(os.path.join(d, f)).read()))
+    return res
+
+
+def coq_cone(roots):
+    """transitive `Require`-closure of the given .v files (paths relative to coq/) as a set of
+    logical names without the Clvm prefix, e.g. {"Gen.OpConsts", "Model.Machine", ...}"""
+    seen, todo = set(), [r[:-2].replace("/", ".") for r in roots]
+    while todo:
+        m = todo.pop()
+        if m in seen:
+            continue
+        seen.add(m)
+        path = os.path.join(COQ, m.replace(".", "/") + ".v")
+        if not os.path.exists(path):
+            continue
+        txt = re.sub(r"\(\*.*?\*\)", " ", open(path).read(), flags=re.S)
+        for stmt in re.findall(r"\bRequire\b(.*?)\.(?=\s|$)", txt, flags=re.S):
+            for name in stmt.split():
+                name = name.strip()
+                if name.startswith("Clvm."):
+                    name = name[5:]
+                if re.fullmatch(r"(Gen|Model|Proofs|Props|Pins|Extract)\.\w+", name):
+                    todo.append(name)
+    return seen
+
+
+def translator_failures_in_cone(out, roots):
+    """Which failed generators matter to the Coq cone of `roots`? -> (relevant, irrelevant) lists of
+    generator names; a failure that cannot be attributed to a generator is relevant to everything."""
+    failed = re.findall(r"translator \((gen_\w+\.py)\)", out)
+    if not failed:
+        return ["?"], []
+    outs = translator_outputs()
+    cone = coq_cone(roots)
+    rel, irr = [], []
+    for g in sorted(set(failed)):
+        mods = outs.get(g) or None
+        if mods is None or any(("Gen." + m) in cone for m in mods):
+            rel.append(g)
+        else:
+            irr.append(g)
+    return rel, irr
+
+
 def coq_makefile():
     sh([sys.executable, os.path.join(VERIF, "tools", "mkproject.py")], timeout=60, check=True)
     mk = os.path.join(COQ, "Makefile")
@@ -348,8 +399,16 @@ class Check:
         with Lock():
             ok, out = run_translator()
             if not ok:
-                self.broken.append(("translator", "translator/gen.py", out[-3000:]))
-                log("[%s] translator FAILED:\n%s" % (self.pid, out[-2000:]))
+                # a generator that fails closed leaves its Gen file stale; that breaks the tie only for
+                # properties whose Coq cone imports that file
+                roots = [prop_file] + (["Pins/%s.v" % self.pid] if os.path.exists(os.path.join(COQ, "Pins/%s.v" % self.pid)) else [])
+                rel, irr = translator_failures_in_cone(out, roots)
+                if rel:
+                    self.broken.append(("translator", "translator/gen.py", out[-3000:]))
+                    log("[%s] translator FAILED:\n%s" % (self.pid, out[-2000:]))
+                else:
+                    self.notes.append("translator: %s failed, but no file it generates is in this property's Coq cone" % ", ".join(irr))
+                    log("[%s] translator: %s failed (outside this property's cone)" % (self.pid, ", ".join(irr)))
             if self.thorough:
                 # rebuild the cone from clean: remove the property's own .vo and everything in Proofs/Props
                 sh("find . -name '*.vo' -delete -o -name '*.glob' -delete -o -name '*.vos' -delete -o -name '*.vok' -delete -o -name '.*.aux' -delete", cwd=COQ)
